@@ -157,7 +157,9 @@ def sig_reference(arr, dt, s, e, measure, im_vals=None, widen=None):
         prod_exact = measure != 'arias' and O.representable(Fraction(f), mant) and O.representable(thr, mant)
         band = Fraction(0)
         if not cum_exact:
-            band += Fraction(4 * (n + 8) * u) * tot
+            # rounding of a running sum of non-negative terms is relative to THAT partial sum; at a bound the partial sum is
+            # the bound itself, so the band scales with the bound (local scale), not with the total (checklist item 10)
+            band += Fraction(4 * (n + 8) * u * (1 + 1e-6)) * abs(thr)
         if not prod_exact:
             band += Fraction(3 * u) * abs(thr)
         if measure == 'arias':
@@ -210,10 +212,21 @@ def _witness(call, got=None):
     return d
 
 
-def _clean(arr):
+def _clean(arr, mode='sig'):
+    """The record as the oracle uses it, or None when outside the quantifier. Complex records (the library's own fas2signal
+    produces them) count through |a| for the bracketed duration and through their real part for the cumulative measures
+    when the imaginary part is rounding noise."""
     arr = np.asarray(arr)
-    if arr.ndim != 1 or arr.size < 1 or arr.dtype.kind not in 'fiu':
+    if arr.ndim != 1 or arr.size < 1 or arr.dtype.kind not in 'fiuc':
         return None
+    if arr.dtype.kind == 'c':
+        if not np.all(np.isfinite(arr)):
+            return None
+        if mode == 'brac':
+            return np.abs(arr)
+        if np.max(np.abs(arr.imag)) > 1e-9 * np.max(np.abs(arr.real)):
+            return None
+        return np.array(arr.real)
     if arr.dtype.kind == 'f' and not np.all(np.isfinite(arr)):
         return None
     return arr
@@ -303,7 +316,7 @@ def check_sig(ctx, name, call, arr, dt, s, e, se, measure, result, im_vals=None)
 
 
 def check_brac(ctx, name, call, arr, dt, threshold, se, result):
-    arr = _clean(arr)
+    arr = _clean(arr, 'brac')
     try:
         th = float(threshold)
         dt = float(dt)
@@ -523,7 +536,7 @@ def _onex_brac_factory(fn, name, with_se):
         asig, th, se = _parse_brac(args, kwargs, with_se)
         arr = pre['values']
         call = {'fn': fn, 'values': arr, 'dt': pre['dt'], 'threshold': th, 'se': se}
-        if _clean(arr) is None:
+        if _clean(arr, 'brac') is None:
             CTX.observe('%s: call outside the quantifier raised %s' % (name, type(exc).__name__))
             return
         CTX.exception(name + '.start/end==definition', _witness(call), exc)
@@ -629,7 +642,7 @@ def _se_relation(ctx, case, what, pair, scal, dt):
 
 def _thresholds(cur, specs):
     """Resolve threshold specs against the current record (deterministic)."""
-    vals = cur.tolist()
+    vals = (np.abs(cur) if cur.dtype.kind == 'c' else cur).tolist()
     av = sorted(set(abs(v) for v in vals), reverse=True)
     out = []
     for sp in specs:
@@ -684,7 +697,7 @@ def _other_record(x):
     y = np.array(np.roll(x, max(1, len(x) // 3))[::-1])
     if np.array_equal(y, x):
         y = np.array(x)
-        y[0] = y[0] + 1 if y[0] < 100 else y[0] - 1
+        y[0] = y[0] + 1
     return y
 
 
@@ -707,10 +720,12 @@ def _apply_op(eqsig, ctx, asig, op):
                 asig.generate_displacement_and_velocity_series(trap=False)
         elif kind == 'gen_duration_stats':
             asig.generate_duration_stats()
+            _stats_agree(eqsig, ctx, asig)
         elif kind == 'gen_cumulative_stats':
             asig.generate_cumulative_stats()
         elif kind == 'gen_all_motion_stats':
             asig.generate_all_motion_stats()
+            _stats_agree(eqsig, ctx, asig)
         elif kind == 'calc':     # same arguments as the later monitored calls: a result remembered on the object would be hit
             for fr in op.get('fracs') or [(0.05, 0.95)]:
                 for se in (False, True):
@@ -745,6 +760,24 @@ def _apply_op(eqsig, ctx, asig, op):
         elif kind == 'inplace_edit':     # the caller edits the array handed out by .values
             v = asig.values
             v[int(op['index']) % len(v)] *= op['factor']
+        elif kind == 'derive':           # continue with an object the LIBRARY derives from this (analysed, 'warm') object
+            import copy
+            how = op['how']
+            if how == 'deepcopy':
+                asig = copy.deepcopy(asig)
+            elif how == 'interp':
+                asig = eqsig.interp_to_approx_dt(asig, float(asig.dt) * float(op['factor']))
+            elif how == 'resample':
+                asig = eqsig.fns.time_step.resample_to_approx_dt(asig, float(asig.dt) * float(op['factor']))
+            elif how == 'combine':
+                other = eqsig.AccSignal(np.resize(np.asarray(op['values'], dtype=float), asig.npts), asig.dt)
+                other.velocity      # warm as well
+                asig = eqsig.combine_at_angle(asig, other, float(op['angle']))
+            elif how == 'cluster':
+                cl = eqsig.Cluster([asig.values, np.resize(np.asarray(op['values'], dtype=float), asig.npts)], asig.dt, stypes='acc')
+                asig = cl.signal_by_index(int(op['index']))
+            else:                        # round trip through the Fourier spectrum: a complex-valued record
+                asig = eqsig.fns.frequency.fas2signal(asig.fa_spectrum, asig.dt, stype='acc')
         elif kind == 'twin':             # continue with a twin built from this object's values; then edit the original
             twin = eqsig.AccSignal(asig.values, asig.dt)
             try:
@@ -758,6 +791,19 @@ def _apply_op(eqsig, ctx, asig, op):
     except Exception as e:
         ctx.observe('history-op raised (not judged): %s %s' % (kind, type(e).__name__))
     return asig
+
+
+def _stats_agree(eqsig, ctx, asig):
+    """Two sites that must agree: the attributes left by the deprecated generate_duration_stats and the array-level function."""
+    case = CURRENT['case']
+    ref = _call(lambda: eqsig.im.calc_sig_dur_vals(np.array(asig.values), asig.dt, se=True))
+    if not _pair_ok(ref):
+        return
+    got = (getattr(asig, 'sd_start', None), getattr(asig, 'sd_end', None))
+    t595 = getattr(asig, 't_595', None)
+    okk = _same(got, ref) and _scalar(t595) is not None and abs(float(t595) - (float(ref[1]) - float(ref[0]))) <= TIME_RTOL * max(float(ref[1]), float(asig.dt))
+    _rel(ctx, okk, 'rel.generate_duration_stats==calc_sig_dur_vals', case, 'generate_duration_stats()',
+         'sd_start, sd_end, t_595 = %r, %r but calc_sig_dur_vals(values, dt, se=True) = %r' % (got, t595, ref))
 
 
 def _dt_arg(dt, form):
@@ -933,9 +979,11 @@ def _object_block(eqsig, ctx, case, asig, dt, fracs, measures, full, compare_fre
     im = eqsig.im
     cur = np.array(asig.values)
     dt_obj = asig.dt     # derived objects get the SAME dt object: np.float64 vs float changes numpy's promotion for float32 records
-    if _clean(cur) is None:
+    dt = float(asig.dt)  # the library may have derived this object with another time step
+    if _clean(cur, 'brac') is None:
         ctx.observe('object: values after history not a finite series (not judged)')
         return
+    obs_before = _observables(asig) if full and case.get('observe_obj') and len(cur) <= 1500 else None
     fresh = eqsig.AccSignal(np.array(cur), dt_obj) if compare_fresh else None
     ths = _thresholds(cur, case.get('thr_specs') or [])
     form0 = int(case.get('form', 0))
@@ -974,9 +1022,10 @@ def _object_block(eqsig, ctx, case, asig, dt, fracs, measures, full, compare_fre
     if k_pad:
         padded = eqsig.AccSignal(np.concatenate([np.zeros(k_pad, dtype=cur.dtype), cur]), dt_obj)
 
+    pairs0 = {}
     for mname in [None] + measures:
         imf = MEASURES[mname] if mname else None
-        pairs = {}
+        pairs = pairs0 if mname is None else {}
         for j, (s, e) in enumerate(fracs):
             if mname and j >= 2:
                 break
@@ -1048,6 +1097,24 @@ def _object_block(eqsig, ctx, case, asig, dt, fracs, measures, full, compare_fre
             okk = False
         _rel(ctx, okk, 'rel.brac-monotone-threshold', case, 'thresholds %r < %r' % (t1, t2),
              '%r / %r then %r / %r' % (p1, s1, p2, s2))
+    # several analysis calls went through ONE object: the first ones re-called afterwards give the same answers
+    if len(ths) > 1:
+        s, e = fracs[0]
+        first = pairs0.get((s, e))
+        if first is not None:
+            again = _call(lambda: im.calc_sig_dur(asig, start=s, end=e, se=True))
+            _rel(ctx, _same(first, again), 'rel.same-object-recall', case, 'calc_sig_dur(start=%r,end=%r)' % (s, e),
+                 'first call %r, re-called after the other analysis calls %r' % (_show(first), _show(again)))
+        th0, p0, _ = results[1]
+        again = _call(lambda: im.calc_brac_dur(asig, th0, se=True))
+        _rel(ctx, _same(p0, again), 'rel.same-object-recall', case, 'calc_brac_dur(threshold=%r)' % th0,
+             'first call %r, re-called after the other analysis calls %r' % (_show(p0), _show(again)))
+    # the object keeps every public observable (read on deep copies taken before / after the analysis calls)
+    if obs_before is not None:
+        obs_after = _observables(asig)
+        bad = [k for k in obs_before if obs_before[k] != obs_after.get(k)]
+        _rel(ctx, not bad, 'purity.object-observables-unchanged', case, 'AccSignal after the duration functions',
+             'public observables changed: %s' % bad)
     # process-wide state: another object of the same shape in between, first result re-checked afterwards
     if case.get('repeat') and len(ths) > 1:
         other = eqsig.AccSignal(_other_record(cur), dt_obj)
@@ -1061,6 +1128,25 @@ def _object_block(eqsig, ctx, case, asig, dt, fracs, measures, full, compare_fre
 
 def _show(r):
     return 'raised' if r is _FAIL else r
+
+
+OBSERVABLES = ['values', 'dt', 'npts', 'label', 'time', 'velocity', 'displacement', 'pga', 'pgv', 'pgd', 'fa_spectrum',
+               'fa_frequencies', 'response_times', 'smooth_fa_frequencies']
+
+
+def _observables(asig):
+    """Digest of every cheap public observable, read on a DEEP COPY (reading fills caches; the object itself is left alone)."""
+    import copy
+    c = copy.deepcopy(asig)
+    out = {}
+    with attach.paused():
+        for k in OBSERVABLES:
+            try:
+                v = getattr(c, k)
+                out[k] = core.digest(np.asarray(v)) if not isinstance(v, str) else v
+            except Exception as e:
+                out[k] = 'raised %s' % type(e).__name__
+    return out
 
 
 def _nested(ctx, case, what, fracs, pairs):
